@@ -84,31 +84,41 @@ type Decision struct {
 	Pad      int    // bytes of white space after the document
 
 	// malformed / failure stream
-	Status     int     // 0 = 200
-	RawLink    *string // replaces the Link header verbatim
-	RawBody    *string // replaces the body verbatim
-	CType      string  // replaces the Content-Type of a referrers response
-	ErrorCode  string  // error code of a non-200 body (default "UNKNOWN")
-	NoDigest   bool    // manifest endpoint: omit the Docker-Content-Digest header
-	NoProgress bool    // internal: set when RawLink is used (no ground truth for the target)
+	Status    int     // 0 = 200
+	RawLink   *string // replaces the Link header verbatim
+	RawBody   *string // replaces the body verbatim
+	CType     string  // replaces the Content-Type of a referrers response
+	ErrorCode string  // error code of a non-200 body (default "UNKNOWN")
+	NoDigest  bool    // manifest endpoint: omit the Docker-Content-Digest header
+
+	// further Link material (RFC 8288 allows several link-values and several header lines)
+	PostSame   []string // link-values appended to the next link's line after a comma, e.g. `<u>; rel="first"`
+	PostLines  []string // further Link header lines after the line with the next link
+	PreFirst   int      // 0: none; 1: a rel="first" link-value BEFORE the next link in the same line; 2: in a header line of its own before it
+	NoProgress bool     // internal: set when RawLink is used (no ground truth for the target)
 }
 
 // Exchange is one logged request/response pair.
 type Exchange struct {
-	Kind     byte // 'T' tags, 'K' catalog, 'R' referrers, 'M' manifest
-	Repo     string
-	Path     string     // request path
-	Query    url.Values // request query as received
-	Dec      Decision
-	Status   int
-	Page     []Item // items in the body (after server-side filtering)
-	Unfilt   []Item // the page before filtering
-	More     bool   // items remain after this page
-	Link     string // Link header value ("" = absent)
-	HasLink  bool   // a well-formed link with ground truth was issued
-	Text     string // the text between '<' and '>'
-	TPath    string // intended target path
-	TQuery   []KV   // intended target query (pair order)
+	Kind    byte // 'T' tags, 'K' catalog, 'R' referrers, 'M' manifest
+	Repo    string
+	Path    string     // request path
+	Query   url.Values // request query as received
+	Dec     Decision
+	Status  int
+	Page    []Item   // items in the body (after server-side filtering)
+	Unfilt  []Item   // the page before filtering
+	More    bool     // items remain after this page
+	Link    string   // first Link header line ("" = absent): what http.Header.Get returns
+	Links   []string // all Link header lines
+	HasLink bool     // a well-formed link with ground truth was issued
+	Text    string   // the text between '<' and '>' of the NEXT link
+	TPath   string   // intended next target path
+	TQuery  []KV     // intended next target query (pair order)
+	// ground truth of the first link-value of the first line when that is NOT the next link (PreFirst)
+	PreText  string
+	PreQuery []KV
+	CType    string // Content-Type sent
 	JSONOK   bool   // body is a well-formed document of the expected shape
 	DocLen   int    // size of the JSON document
 	TotalLen int    // size of the body
@@ -148,6 +158,8 @@ type Registry struct {
 	Repos     []Item              // catalog in the registry's order
 	Referrers map[string][]Item   // repository + "@" + subject digest -> referrers in the registry's order
 	Manifests map[string]Manifest // repository + "@" + tag or digest -> manifest
+	// NoReferrersAPI makes the referrers endpoint answer 404 (code NOT_FOUND), like a registry without it
+	NoReferrersAPI bool
 	// Decide is the split oracle; x has Kind, Repo, Path and Query filled in.
 	Decide      func(x *Exchange) Decision
 	Log         []*Exchange
@@ -238,6 +250,10 @@ func (r *Registry) RoundTrip(req *http.Request) (*http.Response, error) {
 		i := strings.LastIndex(p, "/referrers/")
 		x.Kind, x.Repo = 'R', p[len("/v2/"):i]
 		items = r.Referrers[x.Repo+"@"+p[i+len("/referrers/"):]]
+		if r.NoReferrersAPI {
+			r.Log = append(r.Log, x)
+			return r.fail(req, x, http.StatusNotFound, "NOT_FOUND"), nil
+		}
 	}
 	if x.Kind == 0 {
 		if r.Fallback != nil {
@@ -299,13 +315,40 @@ func (r *Registry) RoundTrip(req *http.Request) (*http.Response, error) {
 		}
 		x.Text = r.render(req.URL, x.TQuery, d)
 		x.HasLink = true
-		x.Link = "<" + x.Text + ">" + d.Trailer
+		line := "<" + x.Text + ">" + d.Trailer
+		for _, v := range d.PostSame {
+			line += ", " + v
+		}
+		if d.PreFirst != 0 {
+			// a link back to the first page, placed before the next link
+			for _, kv := range x.TQuery {
+				if kv.K != "last" {
+					x.PreQuery = append(x.PreQuery, kv)
+				}
+			}
+			x.PreText = r.render(req.URL, x.PreQuery, d)
+			pre := "<" + x.PreText + `>; rel="first"`
+			if d.PreFirst == 1 {
+				x.Links = []string{pre + ", " + line}
+			} else {
+				x.Links = []string{pre, line}
+			}
+		} else {
+			x.Links = []string{line}
+		}
+		x.Links = append(x.Links, d.PostLines...)
 	}
 	if d.RawLink != nil {
-		x.Link, x.HasLink, x.Text = *d.RawLink, false, ""
+		x.Links, x.HasLink, x.Text = nil, false, ""
+		if *d.RawLink != "" {
+			x.Links = []string{*d.RawLink}
+		}
 	}
-	if x.Link != "" {
-		h.Set("Link", x.Link)
+	for _, l := range x.Links {
+		h.Add("Link", l)
+	}
+	if len(x.Links) > 0 {
+		x.Link = x.Links[0]
 	}
 
 	// the body
@@ -336,6 +379,7 @@ func (r *Registry) RoundTrip(req *http.Request) (*http.Response, error) {
 			ct = d.CType
 		}
 		h.Set("Content-Type", ct)
+		x.CType = ct
 		if d.FHdr != "" {
 			h.Set("OCI-Filters-Applied", d.FHdr)
 		}
